@@ -65,7 +65,7 @@ func (w *gatedSDF2) BoundingBox() sdf.Box2 { return w.s.BoundingBox() }
 func (w *gatedSDF2) Evaluate(p v2.Vec) float64 {
 	if need := w.g.need.Load(); need > 0 {
 		w.g.inside.Add(1)
-		for t0 := time.Now(); w.g.inside.Load() < need && time.Since(t0) < 2*time.Millisecond; {
+		for t0 := time.Now(); w.g.inside.Load() < w.g.need.Load() && time.Since(t0) < 2*time.Millisecond; {
 			runtime.Gosched()
 		}
 		v := w.s.Evaluate(p)
@@ -340,6 +340,9 @@ func c10Hammer(c *Ctx, j c10Job, nPts, reps int) {
 			order := c.Rng("order", j.desc, rep, w).Perm(nPts)
 			go func(order []int) {
 				defer wg.Done()
+				if gated != nil {
+					defer gated.gate.need.Add(-1) // a caller that has finished is not waited for by the others
+				}
 				for _, i := range order {
 					done := track()
 					v := eval(i)
